@@ -121,6 +121,13 @@ func (tc *TLSConfig) Validate() error {
 		return fmt.Errorf("TLS key file not found: %w", err)
 	}
 
+	// Client certificates can only be verified against a configured CA: without
+	// CAFile crypto/tls falls back to the host's root store, and any certificate
+	// issued by a public CA would authenticate
+	if tc.ClientAuth >= tls.VerifyClientCertIfGiven && tc.CAFile == "" {
+		return fmt.Errorf("TLS client certificate verification (ClientAuth %v) requires CAFile", tc.ClientAuth)
+	}
+
 	// Check CA file if client authentication is required
 	if tc.ClientAuth >= tls.VerifyClientCertIfGiven && tc.CAFile != "" {
 		if _, err := os.Stat(tc.CAFile); err != nil {
